@@ -235,6 +235,19 @@ def segment_machine(prog: Program) -> RuleResult:
     state_names = [st.targets[0].id for st in pre if isinstance(st, ast.Assign) and isinstance(st.targets[0], ast.Name)]
     if not state_names:
         raise AnalysisError("subseq_segment_dist: no state variable is initialised before the loop")
+    # the masks reach the scanning loop as they were given: the transducer below reads their bits from the lowest
+    # upwards and assumes nothing was cut off, shifted or masked before the first iteration
+    for st in pre:
+        for n in ast.walk(st):
+            tgt = None
+            if isinstance(n, ast.AugAssign):
+                tgt = n.target
+            elif isinstance(n, ast.Assign) and not (isinstance(n.value, ast.Name) or (isinstance(n.value, ast.Call) and dotted(n.value.func) == "int" and len(n.value.args) == 1 and isinstance(n.value.args[0], ast.Name))):
+                tgt = n.targets[0]
+            if isinstance(tgt, ast.Name) and tgt.id in (p_child, p_parent):
+                res.fail(f"{SUBSEQ}:subseq_segment_dist/masks-as-given", f"`{short(n, 70)}` changes the mask `{tgt.id}` before the scan: the loop length, the -1 verdict (a child element missing from the parent) and the trailing run are all read from the masks as given", mod, n)
+                return res
+    res.ok(f"{SUBSEQ}:subseq_segment_dist/masks-as-given", "no statement before the loop changes a mask")
     bits = []
     for st in loop.body:
         if isinstance(st, ast.Assign) and isinstance(st.value, ast.BinOp) and isinstance(st.value.op, ast.BitAnd):
